@@ -100,6 +100,33 @@ func afterC06(w *World) {
 	if lateOnly {
 		w.probe("all-context-ends-after-return")
 	}
+	// all-default per-node messages: counted per (server, method); a group is judged only if every
+	// call that contributes to it satisfies the preconditions of the exactly-once rule
+	emptyOK, emptyAll := map[emptyKey]int{}, map[emptyKey]int{}
+	for _, c := range w.calls[1:] {
+		for _, si := range c.Targets {
+			if c.InvokeSeq != 0 && c.Expect[si] == emptyPayload {
+				emptyAll[emptyKey{si, c.Stub}]++
+			}
+		}
+	}
+	defer func() {
+		for k, want := range emptyAll {
+			if emptyOK[k] != want {
+				continue
+			}
+			got := 0
+			for _, h := range w.hrecs {
+				if h.Srv == k.srv && h.Method == k.stub && h.ReqVal == "" && h.Tok == -1 {
+					got++
+				}
+			}
+			w.rule("C06.all-default-message-is-a-message", got == want)
+			if got != want {
+				w.violate("C06", "empty-message-not-delivered", "", "server %d received %d of the %d valid all-default (zero-size) messages that per-node functions of %s calls produced for it: such a message was treated as \"no message\"", k.srv, got, want, k.stub)
+			}
+		}
+	}()
 	for _, c := range w.calls[1:] {
 		if c.InvokeSeq == 0 || c.ReqVal == "" || (c.Info.Kind != "mcast" && c.Info.Kind != "ucast") {
 			continue
@@ -133,6 +160,10 @@ func afterC06(w *World) {
 			if nconns != 1 {
 				continue
 			}
+			if c.Expect[si] == emptyPayload {
+				emptyOK[emptyKey{si, c.Stub}]++ // judged by count below: the handler cannot see the token
+				continue
+			}
 			n := len(w.handlersFor(c, si))
 			w.rule("C06.exactly-once-when-reachable", n == 1)
 			if n != 1 {
@@ -140,6 +171,11 @@ func afterC06(w *World) {
 			}
 		}
 	}
+}
+
+type emptyKey struct {
+	srv  int
+	stub string
 }
 
 func (w *World) horizon() time.Duration {
